@@ -66,7 +66,7 @@ impl StyleSheetTransformer {
         };
 
         {
-            parse_rules(&mut input, &mut this, true);
+            parse_rules(&mut input, &mut this, true, true);
         }
         this
     }
@@ -257,10 +257,25 @@ fn write_maybe_rpx_dimension(
     }
 }
 
-fn parse_rules(input: &mut StepParser, ss: &mut StyleSheetTransformer, mut at_file_start: bool) {
+fn parse_rules(
+    input: &mut StepParser,
+    ss: &mut StyleSheetTransformer,
+    mut at_file_start: bool,
+    top_level: bool,
+) {
     // `@import` rules are legal as long as only `@import` and `@charset` rules precede them
     // (`at_file_start` of a nested rule list: whether that held where the enclosing rule began)
     while !input.is_exhausted() {
+        if top_level {
+            // `<!--` and `-->` between top-level rules are ignored by CSS: not a part of the next rule
+            if let Ok(peek) = input.peek() {
+                if matches!(&*peek, Token::CDO | Token::CDC) {
+                    input.next().ok();
+                    ss.append_token(peek, input, None);
+                    continue;
+                }
+            }
+        }
         let keeps_file_start = match input.peek() {
             Ok(peek) => match &*peek {
                 Token::AtKeyword(x) => {
@@ -437,7 +452,7 @@ fn parse_at_rule(
                                     input
                                         .parse_nested_block::<_, (), ()>(|nested_input| {
                                             let input = &mut StepParser::wrap(nested_input);
-                                            parse_rules(input, ss, at_file_start);
+                                            parse_rules(input, ss, at_file_start, false);
                                             Ok(())
                                         })
                                         .ok();
